@@ -136,7 +136,68 @@ def gen_cases(rng, tier):
     r = rng.fork("stream")
     for _ in range(n):
         cases.append(gen_stream(r))
+    # streams that also hold GROUPED records (a field none of its members has is missing on the group as well), and a
+    # compared field whose NAME is that of a method of common containers (keys, items, get, ...): missing is missing
+    rg = rng.fork("gstream")
+    for _ in range({"quick": 120, "thorough": 1500, "search": 300}[tier]):
+        cases.append(gen_gstream(rg))
     return cases
+
+
+GS_NAMES = ["x", "x", "keys", "items", "values", "get", "index", "count", "update", "copy", "pop", "fields"]   # (not `name` / `records`: public attributes of a GroupedRecord object)
+
+
+def gen_gstream(r):
+    import operator
+    fname = r.choice(GS_NAMES)
+    ft = r.choice(["varint", "string"])
+    op = r.choice(["==", "!=", "<", ">", "<=", ">="])
+    const = r.choice([0, 5, 3]) if ft == "varint" else r.choice(["abc", "", "b"])
+    pos = r.choice(["L", "L", "R"])
+    entries = []
+    for i in range(r.randint(2, 9)):
+        def member(has):
+            if has:
+                return ["t/has", [[ft, fname, r.choice([0, 5, 7, -1]) if ft == "varint" else r.choice(["abc", "b", "zz"])],
+                                  ["varint", "idx", i]]]
+            return ["t/lacks", [["string", "y", r.choice(["abc", "q"])], ["varint", "idx", i]]]
+        w = r.below(6)
+        if w < 2:
+            ms = [member(True)]
+        elif w < 4:
+            ms = [member(False)]
+        elif w == 4:
+            ms = [member(False), ["t/other", [["string", "z", "q"]]]]                  # a group none of whose members has it
+        else:
+            ms = [member(False), ["t/has2", [[ft, fname, 5 if ft == "varint" else "abc"]]]]   # the second member has it
+        entries.append({"idx": i, "members": ms})
+    lit = repr(const)
+    cmp_src = f"r.{fname} {op} {lit}" if pos == "L" else f"{lit} {op} r.{fname}"
+    ctx = r.choice(["bare", "bare", "not", "guard"])
+    src = {"bare": cmp_src, "not": f"not ({cmp_src})", "guard": f"r.{fname} and ({cmp_src})"}[ctx]
+    return {"kind": "gstream", "engine": r.choice(ENGINES), "fname": fname, "op": op, "pos": pos, "const": const, "ctx": ctx,
+            "src": src, "entries": entries}
+
+
+def _gs_expected(case):
+    import operator
+    ops = {"==": operator.eq, "!=": operator.ne, "<": operator.lt, ">": operator.gt, "<=": operator.le, ">=": operator.ge}
+    out = []
+    for e in case["entries"]:
+        val, has = None, False
+        for name, fields in e["members"]:
+            for t, n, v in fields:
+                if n == case["fname"] and not has:
+                    val, has = v, True
+        if not has:
+            c, g = False, False
+        else:
+            a, b = (val, case["const"]) if case["pos"] == "L" else (case["const"], val)
+            c, g = bool(ops[case["op"]](a, b)), bool(val)
+        keep = {"bare": c, "not": not c, "guard": g and c}[case["ctx"]]
+        if keep:
+            out.append(e["idx"])
+    return out
 
 
 STREAM_CONSTS = {
@@ -281,6 +342,23 @@ def run_real(case):
             return {"value": SA.value_json(v)}
         except Exception as e:
             return _err(e)
+    if case["kind"] == "gstream":
+        from flow.record import GroupedRecord
+        buf = io.BytesIO()
+        w = RecordStreamWriter(buf)
+        for e in case["entries"]:
+            ms = [build_record(n, f) for n, f in e["members"]]
+            w.write(ms[0] if len(ms) == 1 else GroupedRecord("grp/c08", ms))
+        w.flush()
+        got, err = [], None
+        try:
+            with warnings.catch_warnings():
+                warnings.simplefilter("ignore")
+                for rec in RecordStreamReader(io.BytesIO(buf.getvalue()), selector=_selector(case["engine"], case["src"])):
+                    got.append(int(rec.idx))
+        except Exception as e:
+            err = _err(e)
+        return {"got": got, "expected": _gs_expected(case), "undecided": [], "raised": err}
     if case["kind"] == "helper":
         rec = build_record("t/helper", case["rec"])
         out = {}
@@ -366,6 +444,7 @@ def oracle(case, obs):
             return (f"{case['engine']} engine: `{case['src']}` gives {a} {full.get('msg', '')} but over the fields the "
                     f"record has (`{case['src_present']}`) the helper gives {b}: missing fields are not skipped")
         return None
+    case = dict(case, via=case.get("via", "reader"))
     if obs["raised"]:
         return (f"filtering with `{case['src']}` ({case['engine']}, {case['via']}) raised {obs['raised']['error']}: "
                 f"{obs['raised']['msg']}")
@@ -388,6 +467,8 @@ def model_op(case, obs):
         rec = build_record("t/helper", case["rec"])
         return {"op": "sel_eval", "engine": case["engine"], "expr": SA.expr_json(case["src"]),
                 "record": SA.record_json(rec)}
+    if case["kind"] == "gstream":
+        return None          # grouped records in the stream: real-code oracle only
     und = set(obs["undecided"])
     recs, bounds = [], []
     for srcrecs in case["sources"]:
@@ -427,6 +508,8 @@ def compare(case, obs, m):
 def nontrivial(case, obs):
     if case["kind"] in ("cell", "helper"):
         return True
+    if case["kind"] == "gstream":
+        return True
     has = [fields[0][1] == "x" and len(fields) == 2 for recs in case["sources"] for _, fields in recs]
     return any(has) and not all(has)
 
@@ -438,6 +521,8 @@ def classify(case, obs):
     if case["kind"] == "cell":
         res = obs.get("error") or str(obs["value"][1])
         return [f"cell:{case['engine']}:{case['op']}:{case['pos']}:{res}", f"ctx:{case['ctx']}"]
+    if case["kind"] == "gstream":
+        return [f"gstream:{case['engine']}:{case['fname']}", "gstream:" + ("raised" if obs["raised"] else "ok")]
     return [f"stream:{case['via']}:{case['engine']}:{case['op']}",
             "stream:" + ("raised" if obs["raised"] else "kept=%d" % min(len(obs["got"]), 5))]
 
@@ -454,6 +539,11 @@ def shrink(case):
                 if kind == case["other"]:
                     c["src"] = cell_source(case["op"], case["pos"], src, "bare")
                     yield c
+        return
+    if case["kind"] == "gstream":
+        for i in range(len(case["entries"])):
+            if len(case["entries"]) > 1:
+                yield dict(case, entries=case["entries"][:i] + case["entries"][i + 1:])
         return
     for si, recs in enumerate(case["sources"]):
         if len(case["sources"]) > 1:
